@@ -324,7 +324,7 @@ class Shrinker(object):
                         if self.accept(_set(self.case, p, c)):
                             progress = True
                             break
-            elif isinstance(cur, str) and len(cur) > 1 and p[-1] not in ('op', 'fn', 'key', 'seed', 'term', 'join', 'tc', 'end', 'site', 'handler'):
+            elif isinstance(cur, str) and len(cur) > 1 and p[-1] not in ('op', 'fn', 'key', 'seed', 'term', 'join', 'tc', 'end', 'site', 'handler', 'dt', 'kind', 'codec', 'encoding', 'compression', 'framing', 'order', 'path', 'style', 'truncs', 'pattern', 'mode', 'type', 'sep', 'esc'):
                 for c in (cur[:len(cur) // 2], cur[len(cur) // 2:], cur[:-1], cur[1:]):
                     if self.accept(_set(self.case, p, c)):
                         progress = True
